@@ -123,6 +123,52 @@ theorem runScript_spec {h : Heap} (ht : TreeShaped h) (N : Name) (k1 : Nat) (hk1
             exact hcfresh _ this
           · exact Or.inr ⟨rfl, h4⟩
 
+theorem runScript_append (h : Heap) (ty : LType) (fin : Final) (k : Nat) (ls : List Link)
+    (a b : List Act) (s : LState) :
+    runScript h ty fin k ls (a ++ b) s = runScript h ty fin k ls b (runScript h ty fin k ls a s) := by
+  induction a generalizing s with
+  | nil => rfl
+  | cons x a ih => cases x <;> simp [runScript, ih]
+
+/-- Registering several children of one object whose subtrees are not registered anywhere
+adds exactly these subtrees (whatever their size: the objects may have been carried over). -/
+theorem registerMany_spec {h : Heap} (ht : TreeShaped h) (N : Name) (k1 : Nat)
+    (hk1 : k1 ≤ N.links.length) (o : Nat) (a : Attr) :
+    ∀ (cs : List Nat) (s : LState), (∀ c ∈ cs, c ∈ targets h a o) → cs.Nodup → Good N s →
+      (∀ c ∈ cs, ∀ j x, x ∈ descFrom h N.links k1 c j → ∀ m, x ∉ s.active m) →
+      Good N (runScript h N.htype N.final k1 (N.links.drop k1) (regAll cs) s) ∧
+      ∀ m x, x ∈ (runScript h N.htype N.final k1 (N.links.drop k1) (regAll cs) s).active m ↔
+        x ∈ s.active m ∨ (k1 ≤ m ∧ ∃ c ∈ cs, x ∈ descFrom h N.links k1 c (m - k1)) := by
+  intro cs
+  induction cs with
+  | nil => intro s _ _ hg _; exact ⟨hg, by simp [regAll, runScript]⟩
+  | cons c cs ih =>
+    intro s hsub hnd hg hfr
+    have hnd' := nodup_cons.mp hnd
+    simp only [regAll, map_cons, runScript]
+    obtain ⟨hg1, hact1⟩ := register_spec ht N _ k1 c s rfl hk1 hg (hfr c (by simp))
+    obtain ⟨hg2, hact2⟩ := ih _ (fun c' hc' => hsub c' (by simp [hc'])) hnd'.2 hg1 (by
+      intro c' hc' j x hx m hm
+      rcases (hact1 m x).mp hm with h1 | ⟨_, h2⟩
+      · exact hfr c' (by simp [hc']) j x hx m h1
+      · have hne : c ≠ c' := fun e => hnd'.1 (e ▸ hc')
+        exact descFrom_siblings_disjoint ht (hsub c (by simp)) (hsub c' (by simp [hc'])) hne h2 hx)
+    refine ⟨hg2, ?_⟩
+    intro m x
+    have := hact2 m x
+    simp only [regAll] at this
+    rw [this, hact1]
+    constructor
+    · rintro ((h1 | ⟨hm, hx⟩) | ⟨hm, c', hc', hx⟩)
+      · exact Or.inl h1
+      · exact Or.inr ⟨hm, c, by simp, hx⟩
+      · exact Or.inr ⟨hm, c', by simp [hc'], hx⟩
+    · rintro (h1 | ⟨hm, c', hc', hx⟩)
+      · exact Or.inl (Or.inl h1)
+      · rcases mem_cons.mp hc' with rfl | hc'
+        · exact Or.inl (Or.inr ⟨hm, hx⟩)
+        · exact Or.inr ⟨hm, c', hc', hx⟩
+
 /-! ### dispatch on the three possible notifier lists of an object -/
 
 theorem dispatch_nil {h : Heap} {N : Name} {o : Nat} {t : Trait} {sc : List Act} {s : LState}
